@@ -487,9 +487,10 @@ fn layer_b(tier: Tier, findings: &Mutex<Findings>) -> (u64, u64, u64, u64, usize
             }
             w16.retain(|o| *o + 1 < tlen);
             for off in w16 {
-                if tier == Tier::Thorough {
-                    units.push(Unit { cell: *cell, p: p.clone(), tmpl: t.clone(), off, width: 2, values: (0..=65535).collect(), lengths: near.clone(), pad: 0 });
-                }
+                // every value of every 16-bit field: at the full received length (quick) / at every
+                // boundary length (thorough) - a window of a few values out of 65536 is invisible
+                // to any boundary set
+                units.push(Unit { cell: *cell, p: p.clone(), tmpl: t.clone(), off, width: 2, values: (0..=65535).collect(), lengths: if tier == Tier::Thorough { near.clone() } else { vec![tlen] }, pad: 0 });
                 units.push(Unit { cell: *cell, p: p.clone(), tmpl: t.clone(), off, width: 2, values: v16_boundary(), lengths: if tier == Tier::Thorough { all_lengths.clone() } else { near.clone() }, pad: 0 });
             }
         }
@@ -580,7 +581,7 @@ pub fn run(args: &Args) -> i32 {
     rep.observe("datagrams_rejected_with_error_value", json!(errs));
     rep.observe("datagrams_ignored", json!(none));
     rep.observe("datagrams_yielding_a_response_passed_through_the_strategy", json!(responses));
-    rep.set("rule", json!("Layer A: 19 view types x lengths {min..min+64,128,129,576,1024} x fill {00,FF} x every value of each length/offset-bearing field (8-bit: all; 16-bit: all near the extremes, stride 251 elsewhere in quick, all in thorough); every getter, payload/packet/options accessor, iterator (ceiling = len+1) and Debug. Layer B: real Channel<SimSocket>::recv_probe inside a real Strategy::run for 18 configurations x 7-8 response templates built from the probe the real dispatch code emitted: every structural octet x all 256 values x received lengths (quick: within +-6 of every structural boundary; thorough: all 0..1024), unmodified template at every length 0..1024 x 2 paddings, 16-bit fields x boundary value set (thorough: all 2^16 x boundary lengths), all strings of length <=5 over {00,45,4F,FF} at each header start. distinct_nontrivial = inputs that got past construction (layer A) or produced a response / an error value (layer B)"));
+    rep.set("rule", json!("Layer A: 19 view types x lengths {min..min+64,128,129,576,1024} x fill {00,FF} x every value of each length/offset-bearing field (8-bit: all; 16-bit: all near the extremes, stride 251 elsewhere in quick, all in thorough); every getter, payload/packet/options accessor, iterator (ceiling = len+1) and Debug. Layer B: real Channel<SimSocket>::recv_probe inside a real Strategy::run for 18 configurations x 7-8 response templates built from the probe the real dispatch code emitted: every structural octet x all 256 values x received lengths (quick: within +-6 of every structural boundary; thorough: all 0..1024), unmodified template at every length 0..1024 x 2 paddings, 16-bit fields x all 2^16 values at the full length (thorough: at every boundary length) + boundary value set x boundary lengths, all strings of length <=5 over {00,45,4F,FF} at each header start. distinct_nontrivial = inputs that got past construction (layer A) or produced a response / an error value (layer B)"));
     rep.sample(json!({"layer": "B", "config": "udp/v6/dublin/fixedboth/priv/ext", "template": "TE-ext-compliant", "mutation": "octet 4 (RFC 4884 length) = every value 0..255, received length 0..1024"}));
     rep.sample(json!({"layer": "A", "view": "ExtensionObjectPacket", "bytes": "4..68 octets of 00/FF with the 16-bit length field swept"}));
     rep.assumptions = vec!["an Err value from recv_probe is allowed by the statement (DESIGN.md 5.6)".into(), crate::c01::ASSUME.into()];
